@@ -49,6 +49,15 @@ class BudgetExceeded(BaseException):
     a BaseException so that no `except Exception` inside the code under test swallows it"""
 
 
+class SlotsChild(Slots):
+    """subclass of a slot-only class (no instance __dict__, not iterable): glom's internal duck types never match it"""
+    __slots__ = ()
+
+    @recursive_repr()
+    def __repr__(self):
+        return 'SlotsChild(%s)' % ', '.join('%s=%r' % (k, getattr(self, k)) for k in Slots.__slots__ if hasattr(self, k))
+
+
 class Log(list):
     """shared access log of the recording containers of one target"""
     budget = None
@@ -212,8 +221,8 @@ def _build(r, b):
             object.__setattr__(c, '_log', b.log)
             object.__setattr__(c, '_nid', nid)
         return c
-    if tag == 'slots':
-        c = Slots()
+    if tag in ('slots', 'slotsc'):
+        c = Slots() if tag == 'slots' else SlotsChild()
         b.nodes.append(c)
         for k, v in r[1]:
             setattr(c, k, _build(v, b))
